@@ -49,7 +49,7 @@ def decode_pack(data):
     thin = flags & 1
     skew = [0, 1, -1, 0][(flags >> 1) & 3]
     bad_trailer = bool(flags & 8) and bool(flags & 0x80)  # rare: needs two bits
-    kind = "memory" if flags & 0x10 else "disk"
+    kind = "memory" if flags & 0x10 else "diskp" if flags & 0x08 else "disk"  # diskp: the base objects sit in a pack
     how = ["add_thin_pack:all", "add_thin_pack:1", "add_thin_pack:7", "add_thin_pack:all"][(flags >> 5) & 3] if thin else "add_pack"
     body = bytearray(b"PACK" + struct.pack(">LL", 2, 0))
     offsets = []
